@@ -100,6 +100,21 @@ class Discharger:
     def index_ok(self, site, guards):
         sub = site[3]
         base, idx = sub[1], sub[2]
+        inner0 = strip_epoch(base)
+        if idx[0] == "c" and isinstance(idx[1], (str, int)) and not isinstance(idx[1], bool) and inner0[0] == "call" and inner0[1] in (".match", ".fullmatch", ".search") \
+                and inner0[2] and inner0[2][0][0] == "g":
+            # match[group]: IndexError exactly when the compiled pattern has no such group
+            import re
+            for mod in self.M.mods:
+                init = self.M.mod_consts.get(mod, {}).get(inner0[2][0][1])
+                if isinstance(init, ast.Call) and init.args and len(init.args) == 1 and not init.keywords and "compile" in ast.unparse(init.func):
+                    try:
+                        rx = re.compile(self.ce.eval(init.args[0], {}, mod))
+                    except Exception:
+                        continue
+                    if (idx[1] in rx.groupindex) if isinstance(idx[1], str) else (0 <= idx[1] <= rx.groups):
+                        return f"group {idx[1]!r} exists in the compiled pattern {inner0[2][0][1]}"
+                    return None
         if idx[0] == "c" and isinstance(idx[1], int):
             k = idx[1]
             inner = strip_epoch(base)
@@ -267,6 +282,8 @@ def check(src, rep):
                 how = None
                 if what == "index":
                     how = D.index_ok(e, guards)
+                    if how is None and __import__("os").environ.get("VERIF_DEBUG"):
+                        print("DEBUG index site", detail, file=__import__("sys").stderr)
                     if how is None:
                         census.setdefault((fnq, line, what), None)
                         k = detail[2]
@@ -282,6 +299,10 @@ def check(src, rep):
                         continue
                 elif what.startswith("ctor:"):
                     how = ctor_ok(e, guards, entry)
+                    if how is None and what == "ctor:index" and detail[5] is not None:
+                        how = D.index_ok(("xsite", cls, "index", detail[5]), detail[4])
+                    if how is None and __import__("os").environ.get("VERIF_DEBUG"):
+                        print("DEBUG ctor site", detail, file=__import__("sys").stderr)
                     if how is None:
                         ck = detail[1]
                         report(True, cls, "raise" if what == "ctor:raise" else what[5:], detail[3], detail[2], f"{cls} from the constructor of {ck[1]} ({what[5:]})", entry)
